@@ -235,20 +235,30 @@ func srvIncarnation(dir string, cap int, period, mails string, first int) (srvOu
 func srvCase(cap int, period, mails string) []string {
 	dir := fsd.Scratch("c10s")
 	defer os.RemoveAll(dir)
-	issued := map[string][]string{} // per mailbox: ids in order of first appearance
+	// per mailbox: (id, subject) in order of first appearance. An id seen again under ANOTHER subject is a new
+	// message that was issued the id of one that is gone (open finding K-C10-id-reissued-after-restart: the
+	// child's id counter restarts, the cap evicted the old holder within the same second): it gets a handle of
+	// its own and is reported in `reissued`.
+	issued := map[string][]string{}
+	var reissued []string
 	render := func(o srvOut) string {
 		var parts []string
 		for _, mb := range srvBoxes {
 			var xs []string
 			for _, m := range o.Boxes[mb] {
+				key := m.ID + "\x00" + m.Subject
 				h := -1
-				for j, id := range issued[mb] {
-					if id == m.ID {
+				for j, k := range issued[mb] {
+					if k == key {
 						h = j
+					} else if strings.HasPrefix(k, m.ID+"\x00") && h < 0 {
+						if r := fmt.Sprintf("%s:k%d", mb, j); !strings.Contains(","+strings.Join(reissued, ",")+",", ","+r+",") {
+							reissued = append(reissued, r)
+						}
 					}
 				}
 				if h < 0 {
-					issued[mb] = append(issued[mb], m.ID)
+					issued[mb] = append(issued[mb], key)
 					h = len(issued[mb]) - 1
 				}
 				xs = append(xs, fmt.Sprintf("k%d.%s", h, vh.HS(m.Subject)))
@@ -278,5 +288,10 @@ func srvCase(cap int, period, mails string) []string {
 	if e != nil {
 		return e
 	}
-	return []string{"l1=" + l1, "l2=" + l2, "l3=" + render(o3), "same=" + vh.B(bytes.Equal(b1, b2))}
+	l3 := render(o3)
+	ri := "none"
+	if len(reissued) > 0 {
+		ri = strings.Join(reissued, ",")
+	}
+	return []string{"l1=" + l1, "l2=" + l2, "l3=" + l3, "same=" + vh.B(bytes.Equal(b1, b2)), "reissued=" + ri}
 }
